@@ -484,3 +484,75 @@ func switchCaseConsts(info *types.Info, body ast.Node, tagPred func(ast.Expr) bo
 	})
 	return
 }
+
+// tagSwitchOwner locates the function body holding the switch over the message-type variable: fd itself, or a
+// same-package helper the variable is passed to unchanged (newMsgForType(msgType)). It returns the body, the
+// variable the switch is keyed by there, and the helper's object (nil when the switch is in fd).
+func (c *Ctx) tagSwitchOwner(p *packages.Package, fd *ast.FuncDecl, tag *types.Var, depth int) (*ast.BlockStmt, *types.Var, *types.Func) {
+	has := false
+	ast.Inspect(fd.Body, func(n ast.Node) bool {
+		if sw, ok := n.(*ast.SwitchStmt); ok && sw.Tag != nil {
+			if id, ok := unparen(sw.Tag).(*ast.Ident); ok && p.TypesInfo.Uses[id] == tag {
+				has = true
+			}
+		}
+		return !has
+	})
+	if has || depth <= 0 {
+		return fd.Body, tag, nil
+	}
+	var rb *ast.BlockStmt
+	var rv *types.Var
+	var rf *types.Func
+	ast.Inspect(fd.Body, func(n ast.Node) bool {
+		call, ok := n.(*ast.CallExpr)
+		if !ok || rb != nil {
+			return rb == nil
+		}
+		var fo *types.Func
+		switch f := unparen(call.Fun).(type) {
+		case *ast.Ident:
+			fo, _ = p.TypesInfo.Uses[f].(*types.Func)
+		case *ast.SelectorExpr:
+			fo, _ = p.TypesInfo.Uses[f.Sel].(*types.Func)
+		}
+		if fo == nil || fo.Pkg() != p.Types {
+			return true
+		}
+		hd := c.DeclOpt(fo)
+		if hd == nil || hd.Body == nil {
+			return true
+		}
+		sig := fo.Type().(*types.Signature)
+		for i, a := range call.Args {
+			id, ok := unparen(a).(*ast.Ident)
+			if !ok || p.TypesInfo.Uses[id] != tag || i >= sig.Params().Len() || sig.Variadic() {
+				continue
+			}
+			b, v, f2 := c.tagSwitchOwner(p, hd, sig.Params().At(i), depth-1)
+			if b != nil && (f2 != nil || b == hd.Body) {
+				// accept only if a switch was really found there
+				found := false
+				ast.Inspect(b, func(m ast.Node) bool {
+					if sw, ok := m.(*ast.SwitchStmt); ok && sw.Tag != nil {
+						if id, ok := unparen(sw.Tag).(*ast.Ident); ok && p.TypesInfo.Uses[id] == v {
+							found = true
+						}
+					}
+					return !found
+				})
+				if found {
+					rb, rv, rf = b, v, fo
+					if f2 != nil {
+						rf = f2
+					}
+				}
+			}
+		}
+		return rb == nil
+	})
+	if rb != nil {
+		return rb, rv, rf
+	}
+	return fd.Body, tag, nil
+}
